@@ -10,7 +10,7 @@ package store
 //@ -- fault(): a store call failed for a reason the request did not cause (I/O, closed store, cancelled context).
 //@ model Repo { name string; blobs set[digest.Digest] }
 //@ -- an upload session: the repository it belongs to, and a counter of state-changing calls (Write, Verify, Close, Cancel, ChangeAlgorithm)
-//@ model BlobCreator { repo string; written int; gone bool }
+//@ model BlobCreator { repo string; written int; gone bool; size int }
 
 //@ iface (st Store) RepoGet(ctx context.Context, repoStr string) (repo Repo, err error)
 //@   -- only names of the repository grammar reach the store (C16); the empty name is excluded by the path split, which is not modelled
@@ -71,8 +71,8 @@ package store
 //@   ensures [err] err != nil ==> bc == nil
 
 //@ iface (bc BlobCreator) Write(p []byte) (n int, err error)
-//@   modifies ghost(fault), alloc, BlobCreator.written
-//@   ensures [counted] bc.written == old(bc.written) + 1
+//@   modifies ghost(fault), alloc, BlobCreator.written, BlobCreator.size
+//@   ensures [counted] bc.written == old(bc.written) + 1 && bc.size >= old(bc.size)
 //@   ensures [err] err != nil ==> fault()
 //@   ensures [fault-monotone] old(fault()) ==> fault()
 
@@ -92,7 +92,7 @@ package store
 
 //@ iface (bc BlobCreator) Size() (n int64)
 //@   modifies alloc
-//@   ensures n >= 0
+//@   ensures [size] n >= 0 && n == bc.size
 
 //@ iface (bc BlobCreator) Digest() (d digest.Digest)
 //@   modifies alloc
